@@ -1293,7 +1293,7 @@ Expression:
         | Expression '.' T_LOCATION { 
             CALL(@1, @3, expr_location());
         }
-        | Expression '.' NonTypeId {
+        | Expression '.' Id {
           CALL(@1, @3, expr_dot($3));
         }
         | Expression '\'' {
